@@ -105,6 +105,30 @@ class LoadEngine(object):
             return True
         return False
 
+    def on_command(self, chip, r, ip):
+        """Protocol facts of the loading commands (Appendix A of DESIGN.md):
+        they are SC&MP's, i.e. go to core 0 of the chip addressed, and carry
+        the forward/retry word that makes the fill spread over the machine."""
+        w = self.w
+        if r.cmd in (20, 22, 23) and r.dest_cpu != 0:
+            w.note_violation("FF", "command %d addressed to core %d: only "
+                             "the monitor (core 0) implements it"
+                             % (r.cmd, r.dest_cpu), kind="not-to-monitor")
+        FR = (0x3f << 8) | 0x18
+        if r.cmd == 20:
+            sub = (r.arg(0) or 0) >> 24
+            want = FR | (1 << 31) if sub == 6 else FR
+            if sub in (6, 7, 15) and r.arg(2) != want:
+                w.note_violation("FF", "nearest-neighbour packet %d carries "
+                                 "forward/retry word %#x, expected %#x"
+                                 % (sub, r.arg(2) or 0, want),
+                                 kind="forward-retry")
+        if r.cmd == 23 and ((r.arg(0) or 0) >> 16) != FR:
+            w.note_violation("FF", "flood-fill data packet carries forward/"
+                             "retry %#x, expected %#x"
+                             % ((r.arg(0) or 0) >> 16, FR),
+                             kind="forward-retry")
+
     # -- fills ---------------------------------------------------------------
     def split_fills(self, log):
         fills = []
@@ -534,6 +558,7 @@ class LoadEngine(object):
                 if xy != (0, 0):
                     m.chips[xy].dead = True
         m.ff_miss = self.ff_miss
+        m.on_command = self.on_command
         self.miss_rate = 0.0
         self.n_loads = 0
         try:
